@@ -45,7 +45,8 @@ type c14Script struct {
 	Implicit string // database of a dbrp statement in the script
 	Th       string // declaration of var th: "", int-default, float-default, float-required
 	ThDef    string // the default's rendering
-	Fails    bool   // valid definition that cannot be started: it writes to an InfluxDB cluster that does not exist
+	Fails    bool   // valid definition that cannot be started: it writes to an InfluxDB cluster that does not exist, or (a batch task) queries a database that is not among its dbrps
+	Dies     bool   // valid, startable definition whose pipeline fails at run time on the data the "boom" operation writes (combine over more points of one timestamp than max allows)
 }
 
 var c14Scripts = []c14Script{{},
@@ -54,6 +55,8 @@ var c14Scripts = []c14Script{{},
 	{Text: "stream\n    |from()\n    |nope()\n", Invalid: true},
 	{Text: "dbrp \"idb\".\"rp\"\n\nstream\n    |from()\n        .measurement('m4')\n    |log()\n", Implicit: "idb"},
 	{Text: "stream\n    |from()\n        .measurement('m5')\n    |influxDBOut()\n        .cluster('unreachable')\n        .database('out')\n        .retentionPolicy('rp')\n", Fails: true},
+	{Text: "stream\n    |from()\n        .measurement('boom')\n    |combine(lambda: TRUE, lambda: TRUE)\n        .as('a', 'b')\n        .max(1)\n    |log()\n", Dies: true},
+	{Text: "batch\n    |query('SELECT v FROM \"otherdb\".\"rp\".m')\n        .period(10s)\n        .every(10s)\n    |log()\n", Fails: true},
 }
 var c14TScripts = []c14Script{{},
 	{Text: "var th = 1\n\nstream\n    |from()\n        .measurement('tm')\n    |where(lambda: \"v\" > th)\n    |log()\n", Th: "int-default", ThDef: "1"},
@@ -114,15 +117,20 @@ func c14Gen(c *Ctx) *c14Scenario {
 	// one case in eight opens with a running task, so that what follows (rename, disable, both at once, delete,
 	// script change, restart) meets an executing pipeline
 	if len(sc.Ops) == 0 && g.Chance(1, 8) {
-		sc.Ops = append(sc.Ops, c14Op{Kind: "createTask", ID: g.Pick(c14TaskIDs), Script: 1 + g.Intn(2), Status: "enabled", DBRP: "db"})
+		sc.Ops = append(sc.Ops, c14Op{Kind: "createTask", ID: g.Pick(c14TaskIDs), Script: []int{1, 2, 6, 6}[g.Intn(4)], Status: "enabled", DBRP: "db"})
 		id := sc.Ops[0].ID
-		switch g.Intn(4) {
+		switch g.Intn(5) {
 		case 0:
 			sc.Ops = append(sc.Ops, c14Op{Kind: "patchTask", ID: id, NewID: g.Pick(c14TaskIDs), Status: "disabled"})
 		case 1:
 			sc.Ops = append(sc.Ops, c14Op{Kind: "patchTask", ID: id, NewID: g.Pick(c14TaskIDs)})
 		case 2:
-			sc.Ops = append(sc.Ops, c14Op{Kind: "patchTask", ID: id, Script: 1 + g.Intn(5)})
+			sc.Ops = append(sc.Ops, c14Op{Kind: "patchTask", ID: id, Script: 1 + g.Intn(6)})
+		case 3:
+			sc.Ops = append(sc.Ops, c14Op{Kind: "patchTask", ID: id, Vars: "int", DBRP: "db2"})
+		}
+		if sc.Ops[0].Script == 6 && g.Bool() {
+			sc.Ops = append(sc.Ops, c14Op{Kind: "boom"}) // the pipeline started first fails at run time, after its definition was updated
 		}
 	}
 	for i := 0; i < n; i++ {
@@ -133,7 +141,7 @@ func c14Gen(c *Ctx) *c14Scenario {
 		}
 		switch k {
 		case 0, 1, 2:
-			op = c14Op{Kind: "createTask", ID: g.Pick(c14TaskIDs), Script: 1 + g.Intn(5), Status: []string{"enabled", "disabled", ""}[g.Intn(3)], DBRP: "db"}
+			op = c14Op{Kind: "createTask", ID: g.Pick(c14TaskIDs), Script: 1 + g.Intn(7), Status: []string{"enabled", "disabled", ""}[g.Intn(3)], DBRP: "db"}
 			if g.Chance(1, 4) || tmplHeavy && g.Chance(2, 3) {
 				op.Template, op.Script = g.Pick(c14TmplIDs), 0
 			}
@@ -147,7 +155,7 @@ func c14Gen(c *Ctx) *c14Scenario {
 			op = c14Op{Kind: "patchTask", ID: g.Pick(c14TaskIDs)}
 			switch g.Intn(8) {
 			case 0:
-				op.Script = 1 + g.Intn(5)
+				op.Script = 1 + g.Intn(7)
 			case 1:
 				op.Status = "enabled"
 			case 2:
@@ -164,7 +172,7 @@ func c14Gen(c *Ctx) *c14Scenario {
 			case 6:
 				op.Template = g.Pick(c14TmplIDs)
 			default:
-				op.Script, op.Status = []int{1, 2, 5}[g.Intn(3)], []string{"enabled", "disabled"}[g.Intn(2)]
+				op.Script, op.Status = []int{1, 2, 5, 6, 7}[g.Intn(5)], []string{"enabled", "disabled"}[g.Intn(2)]
 				if g.Bool() {
 					op.Vars = vars()
 				}
@@ -185,6 +193,9 @@ func c14Gen(c *Ctx) *c14Scenario {
 			}
 		default:
 			op = c14Op{Kind: "write"}
+			if g.Bool() {
+				op = c14Op{Kind: "boom"} // data on which a running pipeline of the sixth script fails
+			}
 		}
 		if burst && g.Chance(2, 3) {
 			op.NoWait = true
@@ -203,13 +214,15 @@ type c14MTask struct {
 	Vars     string // "", int, float
 	DBRP     string // database of the task's single dbrp; "" = none (a task without dbrps cannot be started)
 	Orphan   bool   // its template has been deleted since: a later template of the same id is another template
+	Started  string // the script the running pipeline was started with (an accepted script change does not reload it)
+	StartedDB string // and the database it subscribed to then
 	Running  string // outcome of the last start attempt since the task was last enabled: "" (none or failed), ok, ? (either: see patchTemplate)
 }
 
 // start models one start attempt: a definition that names an InfluxDB cluster that does not exist is accepted
 // (the pipeline is valid) but cannot be started.
 func (t *c14MTask) start() bool {
-	t.Running = "ok"
+	t.Running, t.Started, t.StartedDB = "ok", t.Script, t.DBRP
 	if c14ByText[t.Script].Fails || t.DBRP == "" {
 		t.Running = ""
 		if simrt.Active() {
@@ -358,6 +371,14 @@ func (m *c14Model) apply(op c14Op) bool {
 		}
 		m.Tasks[newID] = t
 		return started
+	case "boom":
+		for _, id := range simrt.Keys(m.Tasks) {
+			if t := m.Tasks[id]; t.Running == "ok" && c14ByText[t.Started].Dies && t.StartedDB == "db" {
+				t.Running = "" // the pipeline failed; the task stays enabled, its definition is untouched
+				m.Tasks[id] = t
+			}
+		}
+		return true
 	case "deleteTask":
 		delete(m.Tasks, op.ID)
 		return true
@@ -770,6 +791,15 @@ func c14Run(c *Ctx, sc *c14Scenario, cfg simrt.Config, path string, from int, mo
 				d.WriteLine("db", "rp", "m v=1i 1000000000\nm2 v=1i 1000000000\ntm v=1i 1000000000\n")
 				life.done = i + 1
 				continue
+			case "boom":
+				d.WriteLine("db", "rp", "boom v=1i 1000000000\nboom v=2i 1000000000\nboom v=3i 1000000000\nboom v=4i 2000000000\n")
+				life.model.apply(op)
+				life.done = i + 1
+				simrt.Count("probe.poison_written")
+				if !verify(d, fmt.Sprintf("after op #%d (data on which pipelines of the sixth script fail)", i)) {
+					return
+				}
+				continue
 			}
 			before := life.model.clone()
 			writesBefore := st.Writes
@@ -965,10 +995,10 @@ func init() {
 	Register(&Prop{
 		ID:  "C14",
 		Run: runC14,
-		Rule: "case = a history of 3-12/25 API requests (create task from a script or a template, patch script/status/id/template/vars/dbrps, delete, create and patch templates; valid and deliberately rejected ones, template updates that fail on one of their tasks, definitions whose start fails, some requests issued back to back) over 4 task ids and 2 template ids (one id a prefix of another in both sets), template deletion, interleaved with clean restarts and data writes, issued against the real HTTP handler; after every acknowledged request and every restart the catalogue read through GET /tasks, /tasks/<id> and /templates is compared with a reference catalogue, and executing with enabled; the history is then re-executed with an injected failure at up to 8 underlying storage writes, and with a crash at up to 8 storage transaction boundaries followed by a restart on a byte copy of the Bolt file and the rest of the history; " +
+		Rule: "case = a history of 3-12/25 API requests (create task from a script or a template, patch script/status/id/template/vars/dbrps, delete, create and patch templates; valid and deliberately rejected ones, template updates that fail on one of their tasks, definitions whose start fails, a definition whose running pipeline fails on certain data (written by a 'boom' operation), some requests issued back to back) over 4 task ids and 2 template ids (one id a prefix of another in both sets), template deletion, interleaved with clean restarts and data writes, issued against the real HTTP handler; after every acknowledged request and every restart the catalogue read through GET /tasks, /tasks/<id> and /templates is compared with a reference catalogue, and executing with enabled; the history is then re-executed with an injected failure at up to 8 underlying storage writes, and with a crash at up to 8 storage transaction boundaries followed by a restart on a byte copy of the Bolt file and the rest of the history; " +
 			"non-trivial = every case; distinct = distinct (scenario, interleaving signatures) tuples",
 		Real: []string{"services/task_store Service (Open, HTTP handlers, DAOs, updateAllAssociatedTasks, startTask watcher)", "services/storage IndexedStore + Bolt adapter + real bbolt file", "services/httpd Handler routing", "TaskMaster (StartTask/StopTask/DeleteTask), pipeline construction, tick parser/evaluator/formatter"},
 		Stub: []string{"harness StorageService wrapper: crash = abandon the world at a transaction boundary + byte copy; failing Put/Delete/Commit", "server.Server wiring replaced by the harness (storage, alert, task master, task store opened in server order)"},
-		Assumptions: []string{"a request in flight at a crash may or may not have applied: both catalogues are admissible", "scripts are compared in the formatted form the API returns (tick.Format of the model's script)", "the vocabulary is 5 task scripts and 6 template scripts whose declared vars/dbrps/startability are written down by hand in the model", "a template created after the deletion of one with the same id is another template: tasks of the deleted one are not its tasks until a request gives them that template again", "batch tasks, template id changes and tasks that die while running are not part of the generated histories"},
+		Assumptions: []string{"a request in flight at a crash may or may not have applied: both catalogues are admissible", "scripts are compared in the formatted form the API returns (tick.Format of the model's script)", "the vocabulary is 7 task scripts and 6 template scripts whose declared vars/dbrps/startability are written down by hand in the model", "a template created after the deletion of one with the same id is another template: tasks of the deleted one are not its tasks until a request gives them that template again", "batch tasks and template id changes are not part of the generated histories"},
 	})
 }
